@@ -1,5 +1,7 @@
 """C06 - the parser is total and its diagnostics point at the offending source."""
 
+import json
+import os
 import re
 
 import fw
@@ -82,6 +84,60 @@ def logical_lines(text):
     return out
 
 
+IDENT = r'[A-Za-z_]\w*'
+
+
+def expr_region(line):
+    """Independent reading of the statement forms of the language reference: (offset, text) of the expression a statement
+    line carries, or None when the line has a degenerate shape this simple reading does not want to judge."""
+    m = re.match(r'^\s*' + IDENT + r'\s*=\s*', line)
+    if m:
+        return (m.end(), line[m.end():]) if line[m.end():].strip() else None
+    stripped = line.rstrip()
+    m = (re.match(r'^\s*(?:if|elif|while)\s+', line) or
+         re.match(r'^\s*for\s+' + IDENT + r'(?:\s*,\s*' + IDENT + r')?\s+in\s+', line))
+    if m and stripped.endswith(':'):
+        expr = line[m.end():len(stripped) - 1]
+        return (m.end(), expr) if expr.strip() else None
+    m = re.match(r'^\s*jumpif\s*\(', line)
+    tail = re.search(r'\)\s+' + IDENT + r'\s*$', line)
+    if m and tail and m.end() <= tail.start():
+        expr = line[m.end():tail.start()]
+        return (m.end(), expr) if expr.strip() else None
+    m = re.match(r'^\s*return\s+(?=\S)', line)
+    if m:
+        return m.end(), line[m.end():]
+    if re.match(r'^\s*(?:if|elif|while|for|jumpif|return|jump|include|function|async)\b', line):
+        return None
+    return 0, line
+
+
+def expr_column_ok(ctx, parser, err, inp, what):
+    """An expression error points at the place inside the LINE where the expression parser stopped: offset of the
+    statement's expression + the column parse_expression reports for that expression alone."""
+    if err['error'] not in ('Syntax error', 'Unmatched parenthesis'):
+        if err['error'] != 'Unterminated line continuation' and err['column'] != 1:
+            ctx.witness('structure-error-column-1', inp, 1, err, what=what)
+            return False
+        return True
+    region = expr_region(err['line'])
+    if region is None:
+        return True
+    off, expr = region
+    try:
+        parser.parse_expression(expr)
+    except parser.BareScriptParserError as exc:
+        if exc.error != err['error']:
+            return True
+        want = off + exc.column_number
+        if want != err['column']:
+            ctx.witness('expression-error-column', inp, {'column': want, 'expression': expr, 'offset': off}, err, what=what)
+            return False
+    except RecursionError:
+        pass
+    return True
+
+
 def check_error(ctx, parser, text, err, start, what):
     """Oracles on one reported error. Returns True if fine."""
     ok = True
@@ -102,6 +158,7 @@ def check_error(ctx, parser, text, err, start, what):
         ok = False
     else:
         ok = caret_ok(ctx, err, {'text': text, 'start': start}) and ok
+        ok = expr_column_ok(ctx, parser, err, {'text': text, 'start': start}, what) and ok
     return ok
 
 
@@ -134,9 +191,39 @@ def caret_ok(ctx, err, inp):
     return True
 
 
+def load_corpus():
+    path = os.path.join(fw.VERIF, 'harness', 'corpus', 'C06.jsonl')
+    out = []
+    if os.path.exists(path):
+        with open(path, encoding='utf-8') as fh:
+            for raw in fh:
+                raw = raw.strip()
+                if raw and not raw.startswith('//'):
+                    out.append(json.loads(raw)['text'])
+    return out
+
+
+def line_without_effect(parser, text, model, only=None):
+    """Index of a (single physical) logical line whose deletion leaves the parsed model unchanged, else None."""
+    phys = re.split(r'\r?\n', text)
+    ll = logical_lines(text)
+    if ll is None or len(ll) > 60:
+        return None
+    base = json.dumps(model, sort_keys=True)
+    for pix, line in ll:
+        if phys[pix] != line or (only is not None and pix != only):
+            continue
+        what, res = parse_outcome(parser, '\n'.join(phys[:pix] + phys[pix + 1:]))
+        if what == 'ok' and json.dumps(res, sort_keys=True) == base:
+            return pix
+    return None
+
+
 def gen_texts(ctx):
-    """(kind, text) cases: token soup, mutated valid programs, deleted closers, dangling continuation, long lines, deep nesting."""
+    """(kind, text) cases: corpus, token soup, mutated valid programs, deleted closers, dangling continuation, long lines, deep nesting."""
     rng = ctx.rng('texts')
+    for text in load_corpus():
+        yield 'corpus', text
     n = ctx.scale(300, 6000)
     for _ in range(n):
         lines = []
@@ -219,7 +306,10 @@ def streams(ctx):
                 depth = 0
                 for _, line in ll:
                     s = line.strip()
-                    if re.match(r'^(if\s.*:|while\s.*:|for\s.*:|(async\s+)?function\s.*:)$', s) and not re.match(r'^\w+\s*=', s):
+                    # `while :` / `for :` / `function :` are LABELS named like the keyword (a block header needs an expression
+                    # resp. a name and parentheses)
+                    if re.match(r'^(if\s+\S.*:|while\s+\S.*:|for\s+\S.*:|(async\s*)?function\s+[A-Za-z_]\w*\s*\(.*\)\s*:)$', s) and \
+                            not re.match(r'^\w+\s*=', s):
                         depth += 1
                     elif s in CLOSERS:
                         depth -= 1
@@ -239,7 +329,9 @@ def streams(ctx):
             k = rng.randint(1, 4)
             pre = [rng.choice(['', '# c', '   ', 'zz = 1', "systemLog('m')", '#'])for _ in range(k)]
             what2, res2 = parse_outcome(parser, '\n'.join(pre + [text]))
-            if what == 'err':
+            if what == 'err' and res['lineNumber'] is None:
+                pass        # already reported by error-has-line-number
+            elif what == 'err':
                 want = dict(res, lineNumber=res['lineNumber'] + k)
                 want.pop('message')
                 got = dict(res2) if what2 == 'err' else {'accepted': True}
@@ -249,11 +341,17 @@ def streams(ctx):
             elif what2 != 'ok':
                 ctx.witness('prepend-keeps-acceptance', {'text': text, 'prefix': pre}, 'accepted', res2)
             # start_line_number offsets the reported number
-            if what == 'err':
+            if what == 'err' and res['lineNumber'] is not None:
                 start = rng.randint(2, 50)
                 what3, res3 = parse_outcome(parser, text, start)
                 if what3 != 'err' or res3['lineNumber'] != res['lineNumber'] + start - 1 or res3['column'] != res['column']:
                     ctx.witness('start-line-offsets', {'text': text, 'start': start}, res['lineNumber'] + start - 1, res3)
+        # metamorphic: every logical line of an accepted text has an effect - deleting it gives an error or a different model
+        if what == 'ok' and ix % 2 == 0:
+            bad = line_without_effect(parser, text, res)
+            if bad is not None:
+                ctx.witness('every-line-has-an-effect', {'text': text, 'line': bad}, 'deleting the line is an error or changes the model',
+                            'same model')
         # metamorphic: a marker statement inserted between two logical lines of a VALID program is never dropped
         if what == 'ok' and kind == 'valid' and ix % 2 == 0:
             lines = text.split('\n')
@@ -275,6 +373,8 @@ def replay(witness):
     probe = fw.Ctx('C06', 'quick', 0)
     if what == 'host':
         return True
+    if witness['oracle'] == 'every-line-has-an-effect':
+        return what == 'ok' and line_without_effect(parser, inp['text'], res, only=inp.get('line')) is not None
     if what == 'err':
         check_error(probe, parser, inp['text'], res, inp.get('start', 1), 'replay')
     else:
